@@ -353,14 +353,16 @@ Section Blocks2.
     apply forallb_impl. intros x H. unfold notk. cbn [existsb] in H. rewrite orb_false_r in H. exact H.
   Qed.
 
-  Theorem block_print b off evs :
+  (* [o]: old_style_metadata (no front matter); with front matter (o = false) a `>>` line is not a metadata entry *)
+  Theorem block_print_gen (o : bool) b off evs :
     block_ok cfg b = true ->
     (match b with BkSection _ _ n2 trail => n2 = O -> trail = [] | _ => True end) ->
+    (o = true \/ match b with BkMeta _ _ => False | _ => True end) ->
     exists evs',
-      run_block (place off (print_block b)) evs (parse_block cfg true) = Done (evs' ++ evs) /\
+      run_block (place off (print_block b)) evs (parse_block cfg o) = Done (evs' ++ evs) /\
       map ev_proj (rev evs') = denote_block b.
   Proof.
-    intros W Hsec. unfold block_ok in W. apply andb_true_iff in W as [_ W].
+    intros W Hsec Ho. unfold block_ok in W. apply andb_true_iff in W as [_ W].
     destruct b as [k v | n1 name n2 trail | items | ls]; cbn [print_block denote_block].
     - apply andb_true_iff in W as [W Hvb]. apply andb_true_iff in W as [W Hkb].
       apply andb_true_iff in W as [W Hnc]. apply andb_true_iff in W as [Hk Hv]. apply negb_true in Hkb, Hvb.
@@ -371,7 +373,7 @@ Section Blocks2.
       fold (init_st blk evs). unfold parse_block, bind at 1, peek, peek_of, init_st. cbn [b_rest St].
       assert (Hk0 : match blk with t :: _ => kind t | [] => KEof end = KMeta) by (rewrite Eb in *; unfold blk in Eb; cbn [place] in Eb; inversion Eb; reflexivity).
       rewrite Hk0. unfold bind at 1, with_recover, obindM, bind at 1. change {| b_all := blk; b_done := []; b_rest := blk; b_evs := evs |} with (init_st blk evs). rewrite Hm.
-      unfold meta_kept. rewrite orb_true_r. unfold ret, event. cbn [b_all b_done b_rest b_evs St]. reflexivity.
+      destruct Ho as [-> | []]. unfold meta_kept. rewrite orb_true_r. unfold ret, event. cbn [b_all b_done b_rest b_evs St]. reflexivity.
     - apply andb_true_iff in W as [W Htr]. apply andb_true_iff in W as [W Hnb].
       apply andb_true_iff in W as [Hsh Hne]. apply negb_true in Hnb.
       destruct (section_print n1 name n2 trail off evs Hsh Hne Hnb Htr Hsec) as (tn & Hs & Htn).
@@ -398,7 +400,7 @@ Section Blocks2.
         assert (Hmos : (match head_kind (print_items items) with
                         | KMeta => with_recover (ev <-? metadata_entry cfg;;
                                      match ev with
-                                     | EvMetadata key _ => if meta_kept cfg true key then ret (Some ev) else ret None
+                                     | EvMetadata key _ => if meta_kept cfg o key then ret (Some ev) else ret None
                                      | _ => ret (Some ev)
                                      end)
                         | KEq => with_recover (section_p cfg)
@@ -441,6 +443,14 @@ Section Blocks2.
         unfold bind at 1. rewrite Hl. cbn [b_all b_done b_rest b_evs St]. cbn [app]. rewrite <- app_assoc. reflexivity.
       + cbn [rev]. rewrite rev_app_distr. cbn [rev app map ev_proj]. rewrite map_app, He. reflexivity.
   Qed.
+
+  Theorem block_print b off evs :
+    block_ok cfg b = true ->
+    (match b with BkSection _ _ n2 trail => n2 = O -> trail = [] | _ => True end) ->
+    exists evs',
+      run_block (place off (print_block b)) evs (parse_block cfg true) = Done (evs' ++ evs) /\
+      map ev_proj (rev evs') = denote_block b.
+  Proof. intros W Hsec. apply block_print_gen; auto. Qed.
 End Blocks2.
 
 (* ---------------------------------------------------------------- documents *)
@@ -456,21 +466,33 @@ Section Docs.
   (* the token block [blk] is the printed block [b] at some offset *)
   Definition prints (blk : list tok) (b : block) : Prop := exists off, blk = place off (print_block b).
 
+  Definition not_meta (b : block) : Prop := match b with BkMeta _ _ => False | _ => True end.
+
+  Lemma fold_print_gen (o : bool) bl d :
+    Forall2 prints bl d -> Forall (fun b => block_ok cfg b = true /\ sec_trail_ok b) d ->
+    (o = true \/ Forall not_meta d) ->
+    forall evs, exists evs',
+      fold_blocks (full_block_step cfg o) bl evs = Done (evs' ++ evs) /\
+      map ev_proj (rev evs') = concat (map denote_block d).
+  Proof.
+    induction 1 as [|blk b bl d [off ->] _ IH]; intros Hok Ho evs.
+    - exists []. split; reflexivity.
+    - inversion Hok as [|? ? [Hb Hs] Hrest]; subst.
+      assert (Ho1 : o = true \/ not_meta b) by (destruct Ho as [->|Ho]; [left; reflexivity|right; inversion Ho; assumption]).
+      assert (Ho2 : o = true \/ Forall not_meta d) by (destruct Ho as [->|Ho]; [left; reflexivity|right; inversion Ho; assumption]).
+      destruct (block_print_gen cfg Hstrict o b off evs Hb Hs Ho1) as (e1 & H1 & P1).
+      destruct (IH Hrest Ho2 (e1 ++ evs)) as (e2 & H2 & P2).
+      exists (e2 ++ e1). cbn [fold_blocks]. unfold full_block_step at 1. rewrite H1. cbn [obind]. rewrite H2.
+      split; [rewrite app_assoc; reflexivity|].
+      rewrite rev_app_distr, map_app, P1, P2. reflexivity.
+  Qed.
+
   Lemma fold_print bl d :
     Forall2 prints bl d -> Forall (fun b => block_ok cfg b = true /\ sec_trail_ok b) d ->
     forall evs, exists evs',
       fold_blocks (full_block_step cfg true) bl evs = Done (evs' ++ evs) /\
       map ev_proj (rev evs') = concat (map denote_block d).
-  Proof.
-    induction 1 as [|blk b bl d [off ->] _ IH]; intros Hok evs.
-    - exists []. split; reflexivity.
-    - inversion Hok as [|? ? [Hb Hs] Hrest]; subst.
-      destruct (block_print cfg Hstrict b off evs Hb Hs) as (e1 & H1 & P1).
-      destruct (IH Hrest (e1 ++ evs)) as (e2 & H2 & P2).
-      exists (e2 ++ e1). cbn [fold_blocks]. unfold full_block_step at 1. rewrite H1. cbn [obind]. rewrite H2.
-      split; [rewrite app_assoc; reflexivity|].
-      rewrite rev_app_distr, map_app, P1, P2. reflexivity.
-  Qed.
+  Proof. intros H1 H2. apply fold_print_gen; auto. Qed.
 
   (* C01 at document level, given that the block splitter cuts the text at the printed blocks *)
   Theorem events_print U (text : str) (d : list block) ts :
@@ -628,6 +650,89 @@ Proof.
     apply IH. exact Hf'.
 Qed.
 
+(* ---- the last block of a text that does not end with a newline *)
+Lemma pull_line_nonl A : forallb (fun t => negb (nlk t)) A = true -> pull_line A = (A, []).
+Proof.
+  induction A as [|a A IH]; intro H; [reflexivity|]. cbn [forallb] in H. apply andb_true_iff in H as [Ha HA].
+  cbn [pull_line]. unfold nlk in Ha. apply negb_true in Ha. rewrite Ha, (IH HA). reflexivity.
+Qed.
+
+Lemma line_last_not_nl L : line L -> match rev L with t :: _ => nlk t = false | [] => False end.
+Proof.
+  intros [H1 H2]. destruct (rev L) as [|t r] eqn:E.
+  - apply (f_equal (@rev tok)) in E. rewrite rev_involutive in E. subst L. discriminate.
+  - assert (In t L) by (apply in_rev; rewrite E; left; reflexivity).
+    rewrite forallb_forall in H1. apply negb_true. apply H1. exact H.
+Qed.
+
+Lemma strip_noop X : match rev X with t :: _ => nlk t = false | [] => False end ->
+  rev (strip_trailing_newlines (rev X)) = X.
+Proof.
+  intro H. destruct (rev X) as [|t r] eqn:E; [contradiction|]. cbn [strip_trailing_newlines]. unfold nlk in H. rewrite H.
+  rewrite <- E. apply rev_involutive.
+Qed.
+
+Lemma rev_app_last {T} (A B : list T) : B <> [] -> match rev (A ++ B) with t :: _ => Some t | [] => None end
+                                                 = match rev B with t :: _ => Some t | [] => None end.
+Proof.
+  intro H. rewrite rev_app_distr. destruct (rev B) eqn:E; [|reflexivity].
+  apply (f_equal (@rev T)) in E. rewrite rev_involutive in E. contradiction.
+Qed.
+
+(* a block of one line, no newline after it: the end of the text *)
+Lemma next_block_one_line B fuel : line B -> (length B < fuel)%nat -> next_block fuel B = Some (B, []).
+Proof.
+  intros HB Hf. destruct fuel as [|f]; [lia|]. cbn [next_block].
+  destruct B as [|b0 B'] eqn:EB; [destruct HB as [_ H]; discriminate|]. rewrite <- EB in *.
+  rewrite (pull_line_nonl B (proj1 HB)).
+  assert (Hne : line_is_empty B = false) by (exact (proj2 HB)). rewrite Hne.
+  pose proof (line_last_not_nl B HB) as Hl.
+  destruct (is_single_line_marker B).
+  - rewrite app_nil_r, (strip_noop B Hl). rewrite EB. reflexivity.
+  - cbn [length more_lines is_single_line_marker]. rewrite app_nil_r, (strip_noop B Hl). rewrite EB. reflexivity.
+Qed.
+
+Lemma more_lines_last S : segs S -> forall L fuel,
+  line L -> is_single_line_marker L = false -> (length (S ++ L) < fuel)%nat ->
+  more_lines fuel (S ++ L) = (S ++ L, []).
+Proof.
+  induction 1 as [|L0 n S HL0 Hn Hm HS IH]; intros L fuel HL HmL Hf.
+  - cbn [app] in *. destruct fuel as [|f]; [lia|]. cbn [more_lines]. rewrite HmL.
+    destruct L as [|l0 L'] eqn:EL; [destruct HL as [_ H]; discriminate|]. rewrite <- EL in *.
+    rewrite (pull_line_nonl L (proj1 HL)).
+    assert (Hne : line_is_empty L = false) by (exact (proj2 HL)). rewrite Hne.
+    destruct f; cbn [more_lines is_single_line_marker]; rewrite app_nil_r; reflexivity.
+  - destruct fuel as [|f]; [lia|].
+    assert (Hf' : (length (S ++ L) < f)%nat).
+    { rewrite <- app_assoc in Hf. cbn [app] in Hf. rewrite app_length in Hf. cbn [length] in Hf. lia. }
+    cbn [more_lines]. rewrite <- app_assoc. cbn [app].
+    rewrite (marker_app L0 _ (line_nonempty L0 HL0)), Hm.
+    destruct (L0 ++ n :: S ++ L) eqn:E; [destruct L0; discriminate|]. rewrite <- E.
+    rewrite (pull_line_nl L0 n _ (proj1 HL0) Hn), (line_not_empty L0 n HL0).
+    rewrite (IH L f HL HmL Hf'). rewrite <- app_assoc. reflexivity.
+Qed.
+
+(* a block of several lines, no newline after the last *)
+Lemma next_block_multi_last L1 n1 S L fuel :
+  line L1 -> nlk n1 = true -> is_single_line_marker L1 = false -> segs S ->
+  line L -> is_single_line_marker L = false ->
+  (length (L1 ++ n1 :: S ++ L) < fuel)%nat ->
+  next_block fuel (L1 ++ n1 :: S ++ L) = Some (L1 ++ n1 :: S ++ L, []).
+Proof.
+  intros HL1 Hn1 Hm1 HS HL HmL Hf. destruct fuel as [|f]; [lia|]. cbn [next_block].
+  destruct (L1 ++ n1 :: S ++ L) eqn:E; [destruct L1; discriminate|]. rewrite <- E in *.
+  rewrite (pull_line_nl L1 n1 _ (proj1 HL1) Hn1), (line_not_empty L1 n1 HL1).
+  rewrite (marker_app L1 [n1] (line_nonempty L1 HL1)), Hm1.
+  rewrite (more_lines_last S HS L _ HL HmL) by lia.
+  replace ((L1 ++ [n1]) ++ S ++ L) with (L1 ++ n1 :: S ++ L) by (rewrite <- app_assoc; reflexivity).
+  assert (Hl : match rev (L1 ++ n1 :: S ++ L) with t :: _ => nlk t = false | [] => False end).
+  { pose proof (line_last_not_nl L HL) as H0.
+    replace (L1 ++ n1 :: S ++ L) with ((L1 ++ n1 :: S) ++ L) by (rewrite <- app_assoc; reflexivity).
+    pose proof (rev_app_last (L1 ++ n1 :: S) L (line_nonempty L HL)) as H1.
+    destruct (rev ((L1 ++ n1 :: S) ++ L)), (rev L); try discriminate; try contradiction. injection H1 as ->. exact H0. }
+  rewrite (strip_noop _ Hl). rewrite E. reflexivity.
+Qed.
+
 (* the layout of a document, declaratively: blocks separated by empty (blank or comment-only) lines;
    `>>` and `=` lines are blocks of one line and need no empty line around them; a multi-line
    block (step, text) ends at an empty line, at a `>>`/`=` line or at the end of the text *)
@@ -640,7 +745,13 @@ Inductive doc_toks : list tok -> list (list tok) -> Prop :=
     elines EL -> B ++ [n0] = L1 ++ n1 :: S -> line L1 -> nlk n1 = true -> is_single_line_marker L1 = false ->
     segs S -> nlk n0 = true -> (match rev B with t :: _ => nlk t = false | [] => False end) ->
     after_multi SEP NEXT SEP' -> doc_toks (SEP' ++ NEXT) bs ->
-    doc_toks (EL ++ B ++ n0 :: SEP ++ NEXT) (B :: bs).
+    doc_toks (EL ++ B ++ n0 :: SEP ++ NEXT) (B :: bs)
+(* the text ends right after the last block, without a newline *)
+| dt_last_line EL B : elines EL -> line B -> doc_toks (EL ++ B) [B]
+| dt_last_multi EL L1 n1 S L :
+    elines EL -> line L1 -> nlk n1 = true -> is_single_line_marker L1 = false -> segs S ->
+    line L -> is_single_line_marker L = false ->
+    doc_toks (EL ++ L1 ++ n1 :: S ++ L) [L1 ++ n1 :: S ++ L].
 
 Lemma after_multi_len SEP NEXT SEP' : after_multi SEP NEXT SEP' -> (length (SEP' ++ NEXT) <= length (SEP ++ NEXT))%nat.
 Proof. destruct 1; rewrite ?app_length; cbn [length app]; rewrite ?app_length; cbn [length]; lia. Qed.
@@ -648,7 +759,9 @@ Proof. destruct 1; rewrite ?app_length; cbn [length app]; rewrite ?app_length; c
 Theorem blocks_doc ts bs : doc_toks ts bs -> forall fuel, (length ts < fuel)%nat -> blocks_f fuel ts = bs.
 Proof.
   induction 1 as [EL HEL | EL B n0 REST bs HEL HB Hm Hn0 _ IH
-                  | EL B n0 L1 n1 SG SEP NEXT SEP' bs HEL EB HL1 Hn1 Hm1 HS Hn0 HlB Ha _ IH]; intros fuel Hf.
+                  | EL B n0 L1 n1 SG SEP NEXT SEP' bs HEL EB HL1 Hn1 Hm1 HS Hn0 HlB Ha _ IH
+                  | EL B HEL HB
+                  | EL L1 n1 SG L HEL HL1 Hn1 Hm1 HS HL HmL]; intros fuel Hf.
   - destruct fuel as [|f]; [lia|]. cbn [blocks_f].
     destruct (next_block_elines EL HEL [] (S (length EL))) as (fuel' & _ & E); [rewrite app_nil_r; lia|].
     rewrite app_nil_r in E. rewrite E. destruct fuel'; reflexivity.
@@ -661,6 +774,12 @@ Proof.
     rewrite E, (next_block_multi L1 n1 SG B n0 SEP NEXT SEP' fuel' EB HL1 Hn1 Hm1 HS Hn0 HlB Ha Hf'). f_equal. apply IH.
     pose proof (after_multi_len _ _ _ Ha) as Hle. rewrite !app_length in Hle. rewrite !app_length in Hf. cbn [length] in Hf.
     rewrite !app_length in Hf. rewrite app_length. lia.
+  - destruct fuel as [|f]; [lia|]. cbn [blocks_f].
+    destruct (next_block_elines EL HEL B (S (length (EL ++ B)))) as (fuel' & Hf' & E); [lia|].
+    rewrite E, (next_block_one_line B fuel' HB Hf'). f_equal. destruct f; reflexivity.
+  - destruct fuel as [|f]; [lia|]. cbn [blocks_f].
+    destruct (next_block_elines EL HEL (L1 ++ n1 :: SG ++ L) (S (length (EL ++ L1 ++ n1 :: SG ++ L)))) as (fuel' & Hf' & E); [lia|].
+    rewrite E, (next_block_multi_last L1 n1 SG L fuel' HL1 Hn1 Hm1 HS HL HmL Hf'). f_equal. destruct f; reflexivity.
 Qed.
 
 Section Docs2.
